@@ -212,6 +212,7 @@ type ctlConn struct {
 	dead    bool
 	frameSize int
 	writeSeg  int
+	readDelay time.Duration // a slow reader: wait this long after sending a request before reading the answer
 }
 
 func dial(port int) (*ctlConn, error) {
@@ -325,6 +326,9 @@ func (cc *ctlConn) request(method, path, ctype string, body []byte) (*httpResp, 
 	if err := cc.send(b.Bytes()); err != nil {
 		cc.dead = true
 		return nil, err
+	}
+	if cc.readDelay > 0 {
+		time.Sleep(cc.readDelay)
 	}
 	for {
 		r, isEvent, err := cc.readMessage(method)
